@@ -463,8 +463,7 @@ STRUCTURAL = {
 }
 
 
-def _confine(repo, col):
-    R = "R-C11-confine"
+def _confine(repo, col, R="R-C11-confine"):
     n_table = 0
     for cls in ("Module", "Network"):
         for name, fi in repo.classes[cls].methods.items():
@@ -536,11 +535,10 @@ def _confine(repo, col):
     if n_table < 12:
         raise AnalysisError(f"only {n_table} table stores found in Module/Network methods")
     # ---- registries
-    _registry(repo, col)
+    _registry(repo, col, R)
 
 
-def _registry(repo, col):
-    R = "R-C11-confine"
+def _registry(repo, col, R="R-C11-confine"):
     M = lambda n: repo.method("Module", n)
     # add_to_group
     fi = M("add_to_group")
